@@ -74,6 +74,9 @@ def run(ctx):
                 if st['action'] == 'NextTerms':      # TLC names a step with a nested quantifier after the enclosing definition
                     st['action'] = 'Next'
         behs += more
+        # ... and one handler only (heartbeats handled one at a time): what is persisted must equal what is served at the end of every
+        # behaviour, with the region storage flushed at different points of the history
+        behs += ctx.simulate('region', 'RegionCache', 'Sim_RegionCache_seq.cfg', num=120 if q else 500, depth=50, seed=sd)
         bj = os.path.join(ctx.dir, 'behs.json')
         json.dump(behs, open(bj, 'w'))
         tr = os.path.join(ctx.dir, 'cache_%d.ndjson' % sd)
@@ -84,7 +87,7 @@ def run(ctx):
         handle(ctx, bad, evs, 'cache_%d' % sd)
         ctx.sample({'kind': 'heartbeat deliveries replayed on a real RaftCluster', 'events': [e for e in evs if e.get('ev') in ('PreCheck', 'Commit')][:5]})
     return ctx.finish(rule='exhaustive TLC of RegionCache.tla (3 ids, 3 keys, truth histories of 3 steps, 4 deliveries, 2 concurrent handlers); '
-                           'TLC -simulate behaviours (7 ids, 7 keys, 3 handlers) replayed on processRegionHeartbeat of a real in-process '
+                           'TLC -simulate behaviours (7 ids, 7 keys, 3 handlers / 1 handler with the region storage flushed at different points) replayed on processRegionHeartbeat of a real in-process '
                            'server with a gate between the pre-check and the cluster lock; Mon_RegionCache.tla decides')
 
 
